@@ -117,6 +117,13 @@ AudioViolated(presT, data) ==
 
 (* Points on which the contract is silent or two readings are defensible     *)
 (* (DESIGN.md A.11): neither outcome may raise an alarm.                     *)
+(* a parameter set that cannot be stored behind a 16-bit length (C16 decides what must happen) *)
+ParamTooLong(vc, d) ==
+    IF vc = "h264" THEN Len(H264Sps(d)) > 65535 \/ Len(H264Pps(d)) > 65535
+    ELSE IF vc = "h265" THEN Len(H265Vps(d)) > 65535 \/ Len(H265Sps(d)) > 65535 \/ Len(H265Pps(d)) > 65535
+    ELSE FALSE
+ConfigTooWide == cfg.w > 65535 \/ cfg.h > 65535 \/ (cfg.ac = "opus" /\ cfg.ch > 255)
+
 VideoUnspecified(op, presT, decT) ==
     \/ phase = "failed"
     \/ presT.k = "huge" \/ decT.k = "huge"                               \* saturating cast: C16
@@ -124,6 +131,10 @@ VideoUnspecified(op, presT, decT) ==
     \/ (GoodT(presT) /\ GoodT(decT) /\ Abs(Tk(presT) - Tk(decT)) > cfg.i32)  \* cts width: C16
     \/ (v # << >> /\ GoodT(decT) /\ S3(decT) > LastDec3 /\ Tk(decT) = LastDecTick)   \* same tick
     \/ (op \in {"wv", "ev"} /\ v # << >> /\ GoodT(presT) /\ S3(presT) > LastDec3 /\ S3(presT) <= LastPres3)
+
+VideoUnspecifiedD(op, presT, decT, data) ==
+    \/ (v = << >> /\ Len(data) > 65535 /\ ParamTooLong(cfg.vc, data))
+    \/ VideoUnspecified(op, presT, decT)
 
 AudioUnspecified(presT, data) ==
     \/ phase = "failed"
@@ -144,12 +155,12 @@ CallViolated(c) ==
     ELSE FinishedSet     \* fin
 
 CallUnspecified(c) ==
-    IF c.op = "wv" THEN VideoUnspecified("wv", c.pts, c.pts)
-    ELSE IF c.op = "wvd" THEN VideoUnspecified("wvd", c.pts, c.dts)
-    ELSE IF c.op = "ev" THEN VideoUnspecified("ev", EvTime, EvTime)
+    IF c.op = "wv" THEN VideoUnspecifiedD("wv", c.pts, c.pts, c.data)
+    ELSE IF c.op = "wvd" THEN VideoUnspecifiedD("wvd", c.pts, c.dts, c.data)
+    ELSE IF c.op = "ev" THEN VideoUnspecifiedD("ev", EvTime, EvTime, c.data)
     ELSE IF c.op = "wa" THEN AudioUnspecified(c.pts, c.data)
     ELSE IF c.op = "ea" THEN AudioUnspecified(EaTime, c.data)
-    ELSE phase = "failed"
+    ELSE phase = "failed" \/ ConfigTooWide      \* finish: a configured value that fits no field (C16)
 
 (* Error variants of muxide::api::MuxerError, mapped to contract classes by  *)
 (* name.  Io stands for the DurationOverflow mapping (and sink errors, C13). *)
@@ -287,19 +298,25 @@ RangesOf(F) == UNION { { << t, i >> : i \in { j \in 1..NSamp(F.tracks[t]) : HasO
 RO(F, r) == F.tracks[r[1]].s[r[2]].o
 RZ(F, r) == F.tracks[r[1]].s[r[2]].z
 
+(* Tiling, decided on the ranges sorted by offset (linear after sorting): the first non-empty range   *)
+(* starts at the mdat payload, each next one starts where the previous one ends, the last one ends at *)
+(* the end of the payload; zero-length ranges only have to lie inside.                               *)
 C01Tiling(F) ==
     LET R == RangesOf(F)
-        total == LET rs == SetToSeq(R) IN SumSeq([k \in 1..Len(rs) |-> RZ(F, rs[k])])
+        ne == { r \in R : RZ(F, r) > 0 }
+        rs == SortSeq(SetToSeq(ne), LAMBDA x, y : RO(F, x) < RO(F, y) \/ (RO(F, x) = RO(F, y) /\ (x[1] < y[1] \/ (x[1] = y[1] /\ x[2] < y[2]))))
+        n == Len(rs)
     IN
     IF Len(F.mdat) > 1 THEN {Sig("C01", "MdatTiling", "file", "several-mdat")}
     ELSE IF Len(F.mdat) = 0 THEN (IF R = {} THEN {} ELSE {Sig("C01", "MdatTiling", "file", "no-mdat")})
     ELSE LET po == F.mdat[1].po  pl == F.mdat[1].pl IN
          (IF \E r \in R : RO(F, r) < po \/ RO(F, r) + RZ(F, r) > po + pl
           THEN {Sig("C01", "MdatTiling", "file", "outside-mdat")} ELSE {})
-    \cup (IF \E r1, r2 \in R : r1 # r2 /\ RZ(F, r1) > 0 /\ RZ(F, r2) > 0
-                 /\ RO(F, r1) < RO(F, r2) + RZ(F, r2) /\ RO(F, r2) < RO(F, r1) + RZ(F, r1)
+    \cup (IF \E k \in 1..(n - 1) : RO(F, rs[k + 1]) < RO(F, rs[k]) + RZ(F, rs[k])
           THEN {Sig("C01", "MdatTiling", "file", "overlap")} ELSE {})
-    \cup (IF total # pl THEN {Sig("C01", "MdatTiling", "file", "not-covered")} ELSE {})
+    \cup (IF (n = 0 /\ pl # 0) \/ (n > 0 /\ (RO(F, rs[1]) > po \/ RO(F, rs[n]) + RZ(F, rs[n]) < po + pl))
+             \/ (\E k \in 1..(n - 1) : RO(F, rs[k + 1]) > RO(F, rs[k]) + RZ(F, rs[k]))
+          THEN {Sig("C01", "MdatTiling", "file", "not-covered")} ELSE {})
 
 (* ---- C03 ---- *)
 ExpDur(S, i) == IF i < Len(S) THEN S[i+1].dt - S[i].dt
